@@ -6,7 +6,7 @@ META = dict(
     functions=['WritePCA', 'ReadPCA', 'WriteCPCA', 'ReadCPCA', 'WritePLS', 'ReadPLS', 'serialize_matrix', 'deserialize_matrix', 'serialize_tensor', 'deserialize_tensor',
                'serialize_dvectorlist', 'deserialize_dvectorlist', 'write_vector_into_sqltable', 'read_vector', 'OpenDB', 'DropAllTables', 'CloseDB'],
     bounds='write/read histories of length 2..5 over 1..2 paths, mixing PCA (4 shapes incl. the empty model), CPCA (4 shapes) and PLS (3 shapes: empty, calibration-only with empty validation fields, everything filled) models; every stored number symbolic (finite, 0 or 1e-9 <= |v| <= 1e9); matrices up to 3x2, tensors up to order 2, at most 40 rows per table',
-    outside='the decimal text round trip of a number (snprintf "%.18f" and SQLite\'s literal parser are libc/SQLite internals: the model carries the formatted double to the INSERT, so the 1e-15 accuracy clause is only exercised by native replays), SQLite itself (replaced by the contract in stubs/sym_sqlite.c: tables per path persisting across open/close, rowid order, CREATE IF NOT EXISTS / INSERT / SELECT / DROP / DELETE semantics, SELECT never modifies), file-system failures, concurrent writers, reading a kind of model that was never written to the path, reading into a model that is not freshly created, SQL text the model does not know (reported as inconclusive)',
+    outside='the decimal text round trip of a number (snprintf "%.18f" and SQLite\'s literal parser are libc/SQLite internals: the model carries the formatted double to the INSERT, so the 1e-15 accuracy clause is only exercised by native replays), SQLite itself (replaced by the contract in stubs/sym_sqlite.c: tables per path persisting across open/close, rowid order, CREATE IF NOT EXISTS / INSERT / SELECT / COUNT / DROP / DELETE semantics, SELECT never modifies, shared locks of unfinished SELECT statements block writers), file-system failures, concurrent writers, reading a kind of model that was never written to the path, reading into a model that is not freshly created, SQL text the model does not know (reported as inconclusive)',
     stubs=['sqlite3_open/close/exec/prepare_v2/step/bind_double/column_double/column_text/finalize/errmsg/free: contract model of the statements io.c issues, recognised from the concrete statement text',
            'snprintf: %s copied, a floating conversion becomes a placeholder and its double is carried to the INSERT that receives the buffer', 'printf/fprintf: CBMC built-in no-op models'],
     assumptions=['a read asks for the kind of model last written to that path', 'stored numbers are finite with 0 or 1e-9 <= |v| <= 1e9'],
@@ -56,9 +56,11 @@ def obligations(tier):
     obs.append(hist('pca1@A>pca2@B>readA>readB', [W(PCA, 1, 0), W(PCA, 2, 1), R(PCA, 0), R(PCA, 1)], tier))
     obs.append(hist('pca1@A>pca2@B>pca3@A>readB>readA', [W(PCA, 1, 0), W(PCA, 2, 1), W(PCA, 3, 0), R(PCA, 1), R(PCA, 0)], tier))
     obs.append(hist('pca2>read>pca1>read', [W(PCA, 2), R(PCA), W(PCA, 1), R(PCA)], tier))
+    obs.append(hist('cpca1>read>cpca2>read', [W(CPCA, 1), R(CPCA), W(CPCA, 2), R(CPCA)], tier))
+    obs.append(hist('pls1>read>pca1>read', [W(PLS, 1), R(PLS), W(PCA, 1), R(PCA)], tier))
     for name, steps in (('pca3>read', [W(PCA, 3), R(PCA)]), ('cpca2>read', [W(CPCA, 2), R(CPCA)]), ('pls2>read', [W(PLS, 2), R(PLS)]),
                         ('pca3>pca1>read', [W(PCA, 3), W(PCA, 1), R(PCA)]), ('pls2>pls1>read', [W(PLS, 2), W(PLS, 1), R(PLS)]), ('cpca2>cpca1>read', [W(CPCA, 2), W(CPCA, 1), R(CPCA)]), ('cpca3>read', [W(CPCA, 3), R(CPCA)]),
-                        ('pls1>pca2>read', [W(PLS, 1), W(PCA, 2), R(PCA)]), ('pca2>read>pca1>read', [W(PCA, 2), R(PCA), W(PCA, 1), R(PCA)]),
+                        ('pls1>pca2>read', [W(PLS, 1), W(PCA, 2), R(PCA)]), ('pca2>read>pca1>read', [W(PCA, 2), R(PCA), W(PCA, 1), R(PCA)]), ('pls1>read>pca1>read', [W(PLS, 1), R(PLS), W(PCA, 1), R(PCA)]),
                         ('pca1@A>pca2@B>pca3@A>readB>readA', [W(PCA, 1, 0), W(PCA, 2, 1), W(PCA, 3, 0), R(PCA, 1), R(PCA, 0)]),
                         ('pls2@A>cpca2@B>pca3@A>cpca1@B>readA>readB', [W(PLS, 2, 0), W(CPCA, 2, 1), W(PCA, 3, 0), W(CPCA, 1, 1), R(PCA, 0), R(CPCA, 1)])):
         obs.append(validate(name, steps, tier))
